@@ -31,6 +31,14 @@
 (*  - "symmetric with a clearly negative eigenvalue": some principal minor *)
 (*    is negative by a margin that forces lambda_min <= -||A|| / 2^10.     *)
 (*                                                                         *)
+(* Graded entries.  For some inputs the harness writes tiny numbers (at     *)
+(* most 3 * 2^-60 relative to the scale of A; field `noise`) into zero      *)
+(* positions of A before the call.  They are fifty binary orders below the *)
+(* 2^-10 resolution of every clause, and the premise bounds cond(A), so    *)
+(* the exact factors of the perturbed matrix differ from those of A by far *)
+(* less than the tolerance: the contract remains stated for the integer    *)
+(* matrix A and the specification does not read the field.                 *)
+(*                                                                         *)
 (* Contracts are polynomial identities evaluated on the fixed-point        *)
 (* integers with the tolerance derived in FixPoint.tla from the            *)
 (* quantisation step (coarse level: about 2^-10 relative to ||A||).        *)
